@@ -9,7 +9,7 @@ from vlib import engine, formats, gen, kal, present, runner
 ID = "C16"
 RULE = ("A program is built from 3..6 units over a small pool of generated inputs/configurations: (A) kalign() call; (F) "
         "kalign_read_input of 1..3 files (any readable format) -> kalign_run -> dump -> kalign_write_msa in 1..3 formats -> "
-        "kalign_free_msa (a quarter of these align the object twice - the second result must equal the first - and some try to write before aligning, which must fail cleanly; a fifth call kalign_check_msa / reformat_settings_msa in between); (C) two alignments read into two objects -> kalign_msa_compare -> free both; (R) a run that must be "
+        "kalign_free_msa (a quarter of these align the object twice - the second result must equal the first - and some try to write before aligning, which must fail cleanly; a fifth call kalign_check_msa / reformat_settings_msa in between; a sixth first make a run that is rejected, a sixth append their last file only after a first alignment - the fresh-process reference of those units is the plain read-all, align-once sequence); (C) two alignments read into two objects -> kalign_msa_compare -> free both; (R) a run that must be "
         "rejected (type/kind mismatch) -> free. The steps of all units are interleaved by a drawn merge order (several msa "
         "objects alive at once) with 'scribble' steps (malloc/fill/free of drawn sizes and byte patterns: the application's own "
         "heap traffic) in between; validity by construction. The whole program runs in one ASan+UBSan+LSan probe process. "
@@ -126,6 +126,10 @@ def unit(draw, pool):
         # aligning the same object a second time must give the first result again; writing before aligning must fail cleanly
         u["rerun"] = draw(st.integers(0, 3)) == 0
         u["early_write"] = draw(st.integers(0, 5)) == 0
+        # a run that is rejected (type of the other kind) before the real one, and records appended after a first alignment:
+        # the final result must be the one a fresh process gives without the rejected run / with all records read first
+        u["fail_first"] = draw(st.integers(0, 5)) == 0
+        u["append_after_run"] = draw(st.integers(0, 5)) == 0
         # the remaining public calls on an msa object (duplicate-name check, rename / un-align), before aligning
         u["pre"] = draw(st.lists(st.sampled_from(["checkmsa %d 0", "checkmsa %d 1", "reformat %d 0 0", "reformat %d 1 0", "reformat %d 0 1", "reformat %d 1 1"]),
                                  min_size=1, max_size=2)) if draw(st.integers(0, 4)) == 0 else []
@@ -154,8 +158,9 @@ def strategy(tier):
     return cases(tier)
 
 
-def unit_steps(u, pool, wd, slot0):
-    """-> (script lines with {out} paths resolved, list of (index, what) to compare)"""
+def unit_steps(u, pool, wd, slot0, baseline=False):
+    """-> (script lines with {out} paths resolved, list of (index, what) to compare).  baseline=True leaves out the steps
+    that must not matter (a rejected run, an alignment before more records are appended): the compared steps are the same"""
     inp = pool[u["inp"]]
     names, seqs = inp["names"], inp["seqs"]
     if u["kind"] == "C" or (u["kind"] in ("F", "R") and u.get("infmt", "fasta") != "fasta"):
@@ -177,12 +182,19 @@ def unit_steps(u, pool, wd, slot0):
             ch = {"fmt": "fasta" if fmt in ("fasta", "afa") else fmt, "gapmode": "aligned" if fmt != "fasta" else "none",
                   "gapfrac": 0.3, "seed": a, "width": 60, "kindletter": kl}
             fp = wd.write(present.render_chunk(names[a:b], seqs[a:b], ch).encode("latin-1"), ".in")
+            if u.get("append_after_run") and u["kind"] == "F" and k >= 2 and b == n and not baseline:
+                # the last file is read only after the records read so far have been aligned once
+                lines.append("run %d %s" % (slot0, kal.cfg_args(u["cfg"])))
             lines.append("read %d 1 %s" % (slot0, fp))
             keys.append((len(lines) - 1, "rc"))
+        if u.get("fail_first") and u["kind"] == "F" and inp["kind"] in ("dna", "protein") and not baseline:
+            lines.append("run %d %s" % (slot0, kal.cfg_args(dict(u["cfg"], type=3 if inp["kind"] == "dna" else 0))))
         if u.get("early_write"):
             lines.append("write %d fasta %s" % (slot0, wd.path(".early")))
             keys.append((len(lines) - 1, "early_write_rc"))
-        for pre in (u.get("pre") or []) if u["kind"] == "F" else []:
+        # (renaming counts records, and a rejected run already drops the empty ones: the extra calls are only made in units
+        # whose reference sequence has the same steps)
+        for pre in (u.get("pre") or []) if u["kind"] == "F" and not (u.get("fail_first") or u.get("append_after_run")) else []:
             lines.append(pre % slot0)
             keys.append((len(lines) - 1, "rc"))
         lines.append("run %d %s" % (slot0, kal.cfg_args(u["cfg"])))
@@ -298,7 +310,7 @@ def check(case):
             return engine.violation({"what": "unit %d: kalign_write_msa succeeded on an object that has not been aligned" % ui}, classes=cl)
     # ---- each unit alone in a fresh process
     for ui, u in enumerate(units):
-        lines, keys = unit_steps(u, pool, wd, 0)
+        lines, keys = unit_steps(u, pool, wd, 0, baseline=True)
         p1 = runner.run_probe(lines, env=runner.LEAK_ENV)
         if p1.ended.bad or p1.steps is None or len(p1.steps) != len(lines):
             if p1.ended.kind == "leak" and u["kind"] == "R":
@@ -330,7 +342,7 @@ def check(case):
     for ui, u in enumerate(units):
         if in_plain[ui] == in_prog[ui]:
             continue
-        lines, keys = unit_steps(u, pool, wd, 0)
+        lines, keys = unit_steps(u, pool, wd, 0, baseline=True)
         p2 = runner.run_probe(lines, variant="plain", heap=True)
         if p2.ended.bad or p2.steps is None or len(p2.steps) != len(lines):
             return engine.violation({"what": "process failure running unit %d (%s) alone (un-sanitised build)" % (ui, u["kind"]), **p2.ended.brief()}, classes=cl, kind="crash")
